@@ -11,10 +11,10 @@ import overlay
 import scen_actor
 import vlib
 
-SW = "PurgeByHost = %s SendTopology = %s CheckDuplicate = %s"
+SW = "PurgeByHost = %s SendTopology = %s CheckDuplicate = %s Rogue = TRUE"
 
 KINDS = {"KMem": {"A": ["p"], "G1": ["p", "q"], "G2": ["q"], "G3": []},
-         "KAct": {"A": ["p"], "B": ["p", "q"], "C": []}}
+         "KAct": {"A": ["p"], "B": ["p", "q"], "C": []}, "KAct0": {"A": ["p"], "B": [], "C": []}}
 SETS = {"N1": ["A"], "N2": ["A", "B"], "N3": ["A", "B", "C"], "G3": ["G1", "G2", "G3"], "G2": ["G1", "G2"], "NoGhosts": [],
         "KP": ["p"], "KPQ": ["p", "q"], "KPQR": ["p", "q", "r"], "I1": ["1"], "I2": ["1", "2"], "S0": [], "S1": ["x"],
         "UpA": ["A"], "UpAB": ["A", "B"], "UpABC": ["A", "B", "C"]}
@@ -31,9 +31,11 @@ INST = {
     "act_2nodes_ops5": inst("N2", "NoGhosts", "KAct", "KPQR", "I2", "S1", "UpAB", 5, "activation"),
     "act_3nodes_ops4": inst("N3", "NoGhosts", "KAct", "KPQ", "I1", "S1", "UpAB", 4, "activation"),
     "act_3nodes_ops3": inst("N3", "NoGhosts", "KAct", "KPQ", "I1", "S0", "UpAB", 3, "activation"),
+    # a member that registered no kind at all still hosts cluster-spawned actors
+    "act_2nodes_kindless": inst("N2", "NoGhosts", "KAct0", "KP", "I1", "S1", "UpAB", 3, "activation"),
 }
 PLAN = {"C18": {"quick": ["mem_3ghosts_ops3"], "thorough": ["mem_3ghosts_ops4"]},
-        "C19": {"quick": ["act_2nodes_ops4", "act_3nodes_ops3"], "thorough": ["act_2nodes_ops5", "act_3nodes_ops4"]}}
+        "C19": {"quick": ["act_2nodes_ops4", "act_3nodes_ops3", "act_2nodes_kindless"], "thorough": ["act_2nodes_ops5", "act_3nodes_ops4", "act_2nodes_kindless"]}}
 REGRESSION = {"C18": [], "C19": [((False, True, True), {"C19_Agreement"}), ((True, False, True), {"C19_Agreement"}), ((True, True, False), {"C19_Unique", "C19_Agreement"})]}
 
 
@@ -171,4 +173,107 @@ def run(prop, tier, replay):
         sc.cleanup()
 
 
-CHECKS = {"C18": run, "C19": run}
+# ---------------------------------------------------------------------------- C20: self-managed provider
+
+def prov_cfg(peers, maxops, fix=True, addall=True, hs=None, ls=None, xs=None, hist=False):
+    b = lambda x: "TRUE" if x else "FALSE"
+    full = {"P3": ("U3", "L3", "X3"), "P2": ("U2", "L2", "X2")}[peers]
+    return ("CONSTANTS Self = \"A\" Peers <- %s Unknown = \"X\" MaxOps = %d FixUnknown = %s AddAll = %s HandshakeSet <- %s MemberLists <- %s UnreachSet <- %s KeepHist = %s\n"
+            "SPECIFICATION Spec\nINVARIANTS TypeOK C20_AgentTold C20_KeepsRunning C20_SelfStays\nPROPERTIES C20_Action\n" % (
+                peers, maxops, b(fix), b(addall), hs or full[0], ls or full[1], xs or full[2], b(hist)))
+
+
+def prov_step(act, args, dst):
+    s = {"act": act, "members": setof(dst["members"]), "up": [], "state": {}, "events": []}
+    if act == "Handshake":
+        s.update(m=args[0], reply=setof(dst["reply"]))
+    elif act == "MembersMsg":
+        s.update(l=setof(args[0]))
+    else:
+        s.update(addr=args[0])
+    return s
+
+
+def run20(prop, tier, replay):
+    sc = vlib.Scratch(prop)
+    try:
+        ov = overlay.write_overlay(sc, "ov.json")
+        binp = vlib.go_build(sc, "./cmd/clusterscen", "clusterscen", overlay=ov)
+        peers = ["G1", "G2", "G3"] if tier == "thorough" else ["G1", "G2"]
+        hc = {"nodes": ["A"], "ghosts": ["G1", "G2", "G3"], "kindsOf": {"A": ["p"], "G1": ["p", "q"], "G2": ["q"], "G3": []}, "ids": [], "kinds": ["p"],
+              "up": [], "provider": True}
+        if replay:
+            rf = json.load(open(replay))
+            p = sc.path("one.ndjson")
+            open(p, "w").write(json.dumps(rf["config"]) + "\n" + json.dumps(rf["scenario"]) + "\n")
+            pr = vlib.run([binp, "-in", p, "-workers", "1"], ok_codes=(0, 1))
+            print(pr.stdout.strip()[:3000])
+            return pr.returncode
+        v = vlib.Verdict(prop, tier)
+        cov = v.coverage
+        cov.update({"scenarios": 0, "steps_executed": 0, "edges_total": 0, "edges_covered": 0, "exhaustive": True})
+        v.assumptions += [
+            "a real SelfManaged provider (real Started: event child, subscription, mDNS announcer) next to a real agent on one engine whose Remoter captures outbound messages; "
+            "handshakes and member lists are sent to the provider PID, unreachable reports are real RemoteUnreachableEvent broadcasts",
+            "the provider's list is observed through the answer to a handshake (the complete member list) and through the agent's Members(); nothing listens on the node's address, so no peer discovered through mDNS can inject a message",
+            "member hosts are pairwise different; the node's own address is never reported unreachable",
+        ]
+        scen = []
+        ncov = ntot = 0
+        plans = [("prov_full_%d" % len(peers), prov_cfg("P3" if len(peers) == 3 else "P2", 4 if tier == "thorough" else 3)),
+                 # every input sequence of length 4 (5) over a small alphabet: the code may remember more than the member list
+                 ("prov_seq", prov_cfg("P2", 5 if tier == "thorough" else 4, hs="Hs", ls="Ls", xs="Xs", hist=True))]
+        for tag, ctext in plans:
+            r, gjson, nn, ne = graphs.dump_graph(sc, "MCProvider.tla", ctext, tag, workers=4)
+            v.add_tlc(r, tag)
+            if r.violated:
+                raise vlib.Broken("Provider.tla violates %s: the model is wrong, not the code" % r.violated)
+            g = json.load(open(gjson))
+            os.remove(gjson)
+            covered = set()
+            for path in scen_actor.cover_paths(g["nodes"], g["init"], g["edges"], seed=vlib.seed()):
+                covered.update(path)
+                scen.append({"id": len(scen) + 1, "steps": [prov_step(g["edges"][ei][2], g["edges"][ei][3], g["nodes"][g["edges"][ei][1]]) for ei in path]})
+            ncov += len(covered)
+            ntot += ne
+        ne, covered = ntot, range(ncov)
+        spath = sc.path("scen_prov.ndjson")
+        with open(spath, "w") as f:
+            f.write(json.dumps(hc) + "\n")
+            for s in scen:
+                f.write(json.dumps(s) + "\n")
+        pr = vlib.run([binp, "-in", spath, "-workers", "4"], ok_codes=(0, 1), timeout=3000)
+        rep = json.loads(pr.stdout)
+        cov["scenarios"] = rep["scenarios"]
+        cov["steps_executed"] = rep["steps"]
+        cov["traces_validated_against_impl"] = rep["scenarios"]
+        cov["edges_total"], cov["edges_covered"] = ne, len(covered)
+        for s in (rep["samples"] or [])[:2]:
+            v.sample({"inputs": s})
+        fails = rep["failures"] or []
+        hb = [f for f in fails if f["what"].startswith("harness:")]
+        if hb:
+            raise vlib.Broken("clusterscen: " + hb[0]["what"])
+        for fl in fails[:3]:
+            s = next(x for x in scen if x["id"] == fl["scenario"])
+            rf = {"config": hc, "scenario": s, "what": fl["what"], "step": fl["step"]}
+            tmp = sc.path("rf.ndjson")
+            open(tmp, "w").write(json.dumps(hc) + "\n" + json.dumps(s) + "\n")
+            if vlib.run([binp, "-in", tmp, "-workers", "1"], ok_codes=(0, 1)).returncode != 1:
+                raise vlib.Broken("provider failure did not reproduce: " + fl["what"])
+            v.violation(rf, "%s [scenario %d step %d: %s]" % (fl["what"][:400], fl["scenario"], fl["step"], " ".join(fl["steps"])))
+        d = vlib.stage_specs(sc)
+        reg = {}
+        for name, kw, want in (("FixUnknown=FALSE", dict(fix=False), {"C20_KeepsRunning", "C20_AgentTold"}), ("AddAll=FALSE", dict(addall=False), {"C20_Action"})):
+            open(os.path.join(d, "reg.cfg"), "w").write(prov_cfg("P2", 3, **kw))
+            r = vlib.tlc(sc, "MCProvider.tla", "reg.cfg", workers=2)
+            reg[name] = r.violated or "NOT VIOLATED"
+        cov["regression_configs"] = reg
+        if reg["FixUnknown=FALSE"] not in ("C20_KeepsRunning", "C20_AgentTold"):
+            raise vlib.Broken("vacuity guard: FixUnknown=FALSE should violate C20_KeepsRunning, got %s" % reg["FixUnknown=FALSE"])
+        return v.finish()
+    finally:
+        sc.cleanup()
+
+
+CHECKS = {"C18": run, "C19": run, "C20": run20}
